@@ -360,3 +360,7 @@ where
         }
     }
 }
+
+#[cfg(all(transparencies_stretto_verif, any(kani, test)))]
+#[path = "/verif/harness/h_builder.rs"]
+mod verif_harness;
